@@ -26,7 +26,7 @@ theorem c16_merge_new_key (rf sf : Flags) (rcs : List (Key × Node)) (k : Key) (
     simp only [finishMerge, maybePromote, CompKind.sameClass, if_true]
     split
     · exact ⟨_, _, rfl, by simp [nativeOf_propagate, native, CompKind.isDictFam]⟩
-    · exact ⟨_, _, rfl, by simp [native, CompKind.isDictFam]⟩
+    · exact ⟨_, _, rfl, by simp [nativeOf_propagate, native, CompKind.isDictFam]⟩
   obtain ⟨r, s, hf, hn⟩ := hfin (rcs ++ [(k, adopt rf .dict v)])
   refine ⟨r, ?_, ?_⟩
   · simp only [merge, mergeF, compMerge, hdel, hloop, hf]
